@@ -16,7 +16,7 @@ class C17(Check):
     PID = 'C17'
     RULE = ('every operator x the four monitor kinds (with pastify for bounded-future formulas online) x degenerate data shapes: one-sample traces, a declared '
             'and supplied but unused variable, a declared but never supplied unused variable, inputs listed in shuffled order; then seeded random formulas of '
-            'the full grammar; expected outcome class from the model (Support.v): Ok for supported constructs, RTAMTException (at parse/pastify or at the '
+            'the full grammar; 30% of the cases with one of the four IA-STL semantics and a random input/output assignment; expected outcome class from the model (Support.v): Ok for supported constructs, RTAMTException (at parse/pastify or at the '
             'first evaluation) for unsupported ones, never another exception and never a value for an unsupported construct; '
             'non-trivial = formula with a temporal operator; distinct by (formula, monitor kind, data shape)')
 
@@ -59,8 +59,21 @@ class C17(Check):
                 continue            # every data set supplies at least one used variable
             nv = need_vars(f, nv)
             n = 1 if shape == 'one-sample' else rng.choice([2, 3, 5, 8])
-            cases.append({'f': f, 'n': n, 'nv': nv, 'cols': fml.gen_trace(rng, nv + 1, n), 'times': list(range(n)), 'shape': shape, 'kind': kind,
-                          'perm': rng.random()})
+            c = {'f': f, 'n': n, 'nv': nv, 'cols': fml.gen_trace(rng, nv + 1, n), 'times': list(range(n)), 'shape': shape, 'kind': kind,
+                 'perm': rng.random()}
+            if rng.random() < 0.3:
+                # the same monitor kind built with one of the four IA-STL semantics: what is supported does not depend on the semantics
+                c['sem'] = rng.choice(['output-robustness', 'input-robustness', 'output-vacuity', 'input-vacuity'])
+                c['io'] = [rng.randrange(2) for _ in range(nv + 1)]
+            cases.append(c)
+        # next / s_next under pastify() for every semantics of the dense-time online monitor
+        P1 = ('pred', 'geq', ('var', 0), ('const', 1))
+        for sem in ('standard', 'output-robustness', 'input-robustness', 'output-vacuity', 'input-vacuity'):
+            for f in (('next', P1), ('evt', 0, 1, ('snext', P1)), ('and', ('next', P1), ('once', P1))):
+                c = {'f': f, 'n': 3, 'nv': 1, 'cols': fml.gen_trace(rng, 2, 3), 'times': [0, 1, 2], 'shape': 'plain', 'kind': 'dense-online', 'perm': 0.5}
+                if sem != 'standard':
+                    c['sem'], c['io'] = sem, [1, 0]
+                cases.append(c)
         return cases
 
     def normalize(self, c):
@@ -94,6 +107,9 @@ class C17(Check):
         col = lambda i: c['cols'][i] if i < len(c['cols']) else c['cols'][-1]
         nm = lambda i: 'xe' if i == extra else fml.VARS[i]
         base = {'monitor': kind, 'vars': vars_, 'spec': 'out = ' + fml.to_text(f)}
+        if c.get('sem'):
+            base.update({'semantics': c['sem'], 'ctor': 'combined',
+                         'io': {v: ('input' if c['io'][min(k, len(c['io']) - 1)] else 'output') for k, v in enumerate(vars_)}})
         past = fml.has_future(f) and kind.endswith('online') and not any(s[0] in fml.UNB_FUTURE for s in fml.subformulas(f))
         if past:
             base['pastify'] = True
@@ -140,13 +156,14 @@ class C17(Check):
         sig = Check.signature(self, c, detail)
         sig['monitor'] = c['kind']
         sig['shape'] = c['shape']
+        sig['semantics'] = c.get('sem', 'standard')
         return sig
 
     def nontrivial(self, c):
         return bool(fml.ops(c['f']) & (fml.UN | fml.BIN | fml.TUN | fml.TBIN) - {'not', 'and', 'or', 'implies', 'iff', 'xor'})
 
     def features(self, c):
-        return [c['kind'], c['shape']] + sorted(fml.ops(c['f']))
+        return [c['kind'], c['shape'], c.get('sem', 'standard')] + sorted(fml.ops(c['f']))
 
     def key(self, c):
         return json.dumps([fml.to_sx(c['f']), c['kind'], c['shape'], c['n']])
